@@ -228,4 +228,22 @@ theorem invL_reachable {cb ns nt} {s : St} (h : Reachable cb ns nt s) : InvL s :
   obtain ⟨es, hr⟩ := h
   exact runFrom_inv (Inv := InvL) (fun _ _ _ _ hi hs => invL_step hi hs) (invL_init cb ns nt) hr
 
+@[simp] theorem select_hasCb (s : St) (t skip rest) : (select s t skip rest).hasCb = s.hasCb := by
+  unfold select; dsimp only; split <;> rfl
+
+theorem stepUser_hasCb {s s' : St} {t : Tid} {fs e} (h : stepUser s t fs e = some s') : s'.hasCb = s.hasCb := by
+  unfold stepUser at h
+  split at h
+  all_goals (try (repeat' (split at h)))
+  all_goals (first | cases h | skip)
+  all_goals (first | rfl | simp)
+
+theorem step_hasCb {s s' : St} {t : Tid} {e} (h : step s t e = some s') : s'.hasCb = s.hasCb := by
+  unfold step at h
+  split at h
+  all_goals (first | exact stepUser_hasCb h | skip)
+  all_goals (try (repeat' (split at h)))
+  all_goals (first | cases h | skip)
+  all_goals (first | rfl | simp [unlock])
+
 end ConcVerif.DD
